@@ -68,6 +68,11 @@ def run(ctx):
                                    "damaged": round(time.time() - t4, 1)}
 
 
+def _tag(ctx):
+    """Scratch directories are per (tier, seed) so that concurrent runs of this check do not wipe each other."""
+    return "%s-s%d" % (ctx.tier, ctx.seed)
+
+
 def _report(ctx, r, what, witness_name="input.txt"):
     for k, v in r.stats.items():
         if isinstance(v, (int, float)):
@@ -91,7 +96,7 @@ def _report(ctx, r, what, witness_name="input.txt"):
 
 def part_prog(ctx):
     n = int(ctx.opts.get("progs", ctx.pick(160, 1600)))
-    r = inproc.run_sharded("vh-bytecode", "prog", ctx.seed, n, "c18-prog", timeout=ctx.pick(600, 2400))
+    r = inproc.run_sharded("vh-bytecode", "prog", ctx.seed, n, "c18-prog-" + _tag(ctx), timeout=ctx.pick(600, 2400))
     _report(ctx, r, "prog")
     for o in r.ok:
         ctx.observe("prog:%s" % o["h"])
@@ -110,7 +115,7 @@ def _sha(path):
 def part_cli(ctx, bindir, progs):
     """Real CLI: package files, and executables via package vs. directly from source."""
     k = int(ctx.opts.get("cli", ctx.pick(6, 40)))
-    work = scratch("c18-cli")
+    work = scratch("c18-cli-" + _tag(ctx))
     pk = os.path.join(work, "pkgs")
     os.makedirs(pk)
     rng = ctx.rng("cli")
@@ -189,7 +194,7 @@ def part_cli(ctx, bindir, progs):
                           cmd="dora compile -c SRC -o P.dora-package; dora compile [--cannon] SRC -o a; dora compile [--cannon] P.dora-package -o b; sha256sum a b")
     ctx.count("cli_programs", done)
     # the files the CLI wrote, through the in-process decoder/encoder
-    r = inproc.run_sharded("vh-bytecode", "pkgfile", ctx.seed, len(pkgs) + 4, "c18-pkgfile", extra_args=["--extra", pk],
+    r = inproc.run_sharded("vh-bytecode", "pkgfile", ctx.seed, len(pkgs) + 4, "c18-pkgfile-" + _tag(ctx), extra_args=["--extra", pk],
                            nshards=min(NCPU, max(1, len(pkgs))), timeout=600)
     _report(ctx, r, "pkgfile")
     for o in r.ok:
@@ -199,7 +204,7 @@ def part_cli(ctx, bindir, progs):
 
 def part_bc(ctx):
     n = int(ctx.opts.get("bc", ctx.pick(16000, 320000)))
-    r = inproc.run_sharded("vh-bytecode", "bc", ctx.seed, n, "c18-bc", timeout=ctx.pick(600, 2400))
+    r = inproc.run_sharded("vh-bytecode", "bc", ctx.seed, n, "c18-bc-" + _tag(ctx), timeout=ctx.pick(600, 2400))
     _report(ctx, r, "bc", "trace.txt")
     for o in r.ok:
         ctx.observe("bc:%s" % o["h"])
@@ -222,7 +227,7 @@ def part_bc(ctx):
 
 def part_damage(ctx, bindir, pkgs):
     """pkgs: package files written by the CLI (hello world first)."""
-    work = scratch("c18-damaged")
+    work = scratch("c18-damaged-" + _tag(ctx))
     files = pkgs[:ctx.pick(3, 6)]
     nflips = int(ctx.opts.get("flips", ctx.pick(5000, 40000)))
     nbin = int(ctx.opts.get("bin", ctx.pick(120, 1500)))       # damaged files per compiler binary, in total
@@ -240,7 +245,7 @@ def part_damage(ctx, bindir, pkgs):
         total = nprefix + ntrail + nflips
         per = max(1, nbin // len(files))
         tag = "f%d" % fi
-        r = inproc.run_sharded("vh-bytecode", "damage", ctx.seed, total, "c18-damage-%d" % fi, timeout=ctx.pick(900, 3000),
+        r = inproc.run_sharded("vh-bytecode", "damage", ctx.seed, total, "c18-damage-%d-%s" % (fi, _tag(ctx)), timeout=ctx.pick(900, 3000),
                                kv={"pkg": pkg, "step": step, "nprefix": nprefix, "ntrail": ntrail, "dumpdir": work,
                                    "dumpevery": max(1, total // per), "tag": tag})
         _report(ctx, r, "damage")
@@ -324,4 +329,4 @@ def part_damage(ctx, bindir, pkgs):
                                   name, o["desc"], "equals" if same else "differs from"), files=files_, cmd=cmd)
     ctx.extra["compiler_binary_outcome_histogram"] = bhist
     shutil.rmtree(work, ignore_errors=True)
-    shutil.rmtree(os.path.join(BUILD, "scratch", "c18-cli"), ignore_errors=True)
+    shutil.rmtree(os.path.join(BUILD, "scratch", "c18-cli-" + _tag(ctx)), ignore_errors=True)
